@@ -62,7 +62,7 @@ def build(cp, names, ctx):
                 term = tv.annotate_build_order(art["term"], il_subs)
                 tv.default_false_bnew(term)
                 amb = ["bundle"] + (["hi"] if r["needs_hi"][i] else []) + (["pkt"] if r["needs_pkt"][i] else [])
-                obs.append({"fmt": f, "term": term, "events": art["events"], "ambient": amb})
+                obs.append({"fmt": f, "term": term, "events": art["events"], "ambient": amb, "meta": r["meta"][i]})
             if bad:
                 ctx.violation("emitted text of %s unreadable (%s): %s" % (pid, bad[0], bad[1]),
                               {"kind": "unreadable", "id": pid, "text": r["rzil"][i]})
@@ -73,6 +73,7 @@ def build(cp, names, ctx):
                 "id": pid, "src": {"kind": "insn", "body": body, "params": [], "void": True, "ret": cast.T(False, 64)},
                 "regs": regs, "imms": imms, "obs": obs, "cmpvars": [], "fam": fam, "gk": [],
                 "nin": tvcheck.FAM_NIN[fam](ctx.tier), "tags": sorted(cp.classes(nm)), "text": cp.beh[nm][i],
+                "attr_body": a, "noped": nm in cp.noped,
             })
             info["accepted_parts"] += 1
     # the bundled sub-routines themselves
@@ -88,6 +89,7 @@ def build(cp, names, ctx):
             "src": {"kind": "sub", "body": cs["body"], "params": cs["params"], "void": cs["void"], "ret": cs["ret"]},
             "regs": regs, "imms": imms, "obs": obs, "cmpvars": [], "fam": "std", "gk": [],
             "nin": tvcheck.FAM_NIN["std"](ctx.tier) * 2, "tags": ["sub"], "text": cp.sub_src[sname]["code"],
+            "attr_body": cs["body"], "noped": False,
         })
     return cases, srcs, il_subs, meta, info
 
